@@ -98,6 +98,16 @@ def array_programs(quick):
             make = "Array[%s]::zero(n)" % ty if fillv is None else "Array[%s]::fill(n, %s)" % (ty, fillv)
             src = ('fn main() { println("start"); let n: Int64 = %s; let a = %s; println("size ${a.size()}"); }\n' % (n, make))
             progs.append((name, src, "array", (es, ival(n))))
+    # lengths right at the representability boundary of each element size (where len*es + header + alignment slack
+    # crosses 2^63): a range check that is off by a word shows only here
+    for (ty, es, fillv) in ELEMS:
+        base = (2 ** 63 - 1 - 16) // es
+        ks = (-9, -8, -7, -4, -3, -2, -1, 0, 1, 2) if not quick else (-9, -8, -4, -3, -2, -1, 0, 1)
+        for k in ks:
+            n = base + k
+            make = "Array[%s]::zero(n)" % ty if fillv is None else "Array[%s]::fill(n, %s)" % (ty, fillv)
+            src = ('fn main() { println("start"); let n: Int64 = %d; let a = %s; println("size ${a.size()}"); }\n' % (n, make))
+            progs.append(("array-%s-edge%+d" % (re.sub(r"\W+", "", ty), k), src, "array", (es, n)))
     for (ctor, arg) in (("Vec[Int64]::new_with_capacity(n)", "-1"), ("Array[Int64]::fill(n, 7)", "-5"),
                         ("Array[Int64]::fill(n, 7)", "2305843009213693953"), ("Vec[UInt8]::new_with_capacity(n)", "9223372036854775807")):
         name = "array-ctor-%s-%s" % (re.sub(r"\W+", "", ctor)[:18], arg.replace("-", "m"))
